@@ -393,8 +393,50 @@ def _strip_dict(c):
     return " ".join(c.split(" ")[:2]) if c.startswith("ok ") else c
 
 
+def overlong_cases(ctx, res):
+    """listings with a line longer than the stream's line limit (64 KiB), through the library's own data stream: the
+    line cannot be parsed, so the listing must end with the documented ValueError - not come back short"""
+    F = nc.Func()
+    good = {"MLSD": [b"Type=file;Size=1; a\r\n", b"Type=dir; d\r\n"], "LIST": [b"-rw-r--r-- 1 none none 1 Jan  1  2001 a\r\n", b"drwxr-xr-x 1 none none 0 Jan  1  2001 d\r\n"]}
+    cases = []
+    for kind in ("MLSD", "LIST"):
+        g = good[kind]
+        head = g[0][: g[0].rindex(b" ") + 1]
+        for n in (65536, 65537, 70000, 200000):
+            long_line = head + b"x" * n + b"\r\n"
+            cases.append((kind, "middle", g[0] + long_line + g[1]))
+            cases.append((kind, "first", long_line + g[0]))
+            cases.append((kind, "last", g[0] + g[1] + long_line))
+            cases.append((kind, "last-unterminated", g[0] + long_line[:-2]))
+
+    async def main():
+        out = []
+        for kind, pos, data in cases:
+            try:
+                got = await nc.client_list_real_stream(F, data, "base/dir", raw_command=kind)
+                out.append(("OK", len(got)))
+            except BaseException as e:  # noqa
+                out.append(("EXC", nc.exc_name(e), isinstance(e, ValueError)))
+        return out
+
+    try:
+        outs = asyncio.run(main())
+    finally:
+        F.close()
+    for (kind, pos, data), o in zip(cases, outs):
+        res.cases += 1
+        res.count("family=overlong-line")
+        inp = {"family": "overlong-line", "kind": kind, "position": pos, "length": len(data)}
+        res.distinct.add(("overlong", kind, pos, len(data)))
+        if o[0] == "OK":
+            res.oracle_failures.append({"input": inp, "what": "Client.list(raw_command=%r) returned %d entries for a listing with a line longer than the stream limit: the line (and what followed) was dropped instead of being reported" % (kind, o[1]), "signature": "C19:overlong-listing-line-dropped"})
+        elif not o[2]:
+            res.oracle_failures.append({"input": inp, "what": "Client.list(raw_command=%r) raised %s for an over-long listing line (not ValueError)" % (kind, o[1]), "signature": "C19:list-%s-raises-%s" % (kind, o[1])})
+
+
 def _run(ctx, with_model, n_list, n_text):
     res = Result()
+    overlong_cases(ctx, res)
     listing = gen_listing_inputs(ctx, n_list)
     texts = gen_text_inputs(ctx, n_text)
     try:
